@@ -16,6 +16,8 @@ def design(ctx):
     vlib.tlc_design(ctx, "BeaconStore", "MC_BeaconStore_Today.cfg", timeout=300, expect_violation="Action property FinalityMonotone is violated.")
     vlib.tlc_design(ctx, "BeaconStore", "MC_BeaconStore_DevAnyEpoch.cfg", timeout=300, expect_violation="Action property SummariesMonotone is violated.")
     vlib.tlc_design(ctx, "BeaconStore", "MC_BeaconStore_DevPartial.cfg", timeout=300, expect_violation="RangeAllOrNothing")
+    # for arbitrary constants: the summaries record only moves to a newer epoch, a put touches one kind of record (TLAPS, 57 obligations)
+    vlib.tlaps(ctx, "BeaconStore_proofs")
 
 
 def generate(ctx):
